@@ -73,6 +73,14 @@ def all_polylines(b):
         out.append((v, 2 + i % 2, False))
     for v in vertices_lists(2, b["degenerate"] // 2, True) + vertices_lists(3, b["degenerate"] // 2, True):
         out.append((v, 0, True))
+    # polylines in space (vertices on {0,1,2}^3)
+    p3 = [(x, y, z) for x in range(3) for y in range(3) for z in range(3)]
+    k = 0
+    for combo in itertools.product(p3[::2], repeat=3):
+        if combo[0] != combo[1] and combo[1] != combo[2]:
+            if k % 53 == 0:
+                out.append((combo, 1, False))
+            k += 1
     return out
 
 
@@ -150,8 +158,11 @@ def run_case(case, res):
     knots = knots_for(nseg, kvar)
     U = [float(knots[0])] + [float(k) for k in knots] + [float(knots[-1])]
     c = lib.Curve(U, lib.np.array(verts, dtype="float64"))
-    points = list(itertools.product(GRID, repeat=2))
-    if degenerate:
+    dim = len(verts[0])
+    points = list(itertools.product(GRID, repeat=2)) if dim == 2 else list(itertools.product(GRID[::2], repeat=3))
+    if dim == 3:
+        pass
+    elif degenerate:
         points = points[::5]  # zero-length segments: a reduced point set
     else:
         # near ties: around every grid point that is exactly equidistant from two different places of the polyline, the four
@@ -163,14 +174,21 @@ def run_case(case, res):
             if len(prm) >= 2 and best > 0:
                 for eps in (F(2, 10 ** 6), F(1, 10 ** 5), F(4, 10 ** 5)):
                     for dx, dy in ((1, 0), (-1, 0), (0, 1), (0, -1)):
-                        extra.append((P[0] + eps * dx, P[1] + eps * dy))
+                        extra.append((P[0] + eps * dx, P[1] + eps * dy) + tuple(P[2:]))
         points = points + extra[:96]
+        # points ON the curve a small distance (1/2000 and 1/10000 of a segment) from each vertex: the vertex (a knot) is then
+        # a candidate whose distance differs from the true minimum 0 by more than 1e-6 but by very little
+        for i in range(len(verts) - 1):
+            a_, b_ = verts[i], verts[i + 1]
+            for t in (F(1, 2000), F(1, 10000)):
+                for s_ in (t, 1 - t):
+                    points.append(tuple(x + s_ * (y - x) for x, y in zip(a_, b_)))
     for P in points:
         res.transition()
         res.state((verts, kvar, P))
         best, prm = geom.point_polyline_sqdist(P, knots, verts)
         tags = dict(curve="polyline", segments=nseg, zero_length_segment=degenerate, on_curve=best == 0,
-                    near_tie=P[0].denominator > 2 or P[1].denominator > 2)
+                    near_tie=any(F(c).denominator > 2 for c in P), dim=dim)
         where = f"polyline {verts} knots {[str(k) for k in knots]} point {tuple(str(x) for x in P)}"
         if any(knots[0] < u < knots[-1] for u in prm):
             res.nontriv((verts, kvar, P))
